@@ -296,8 +296,16 @@ impl Range {
                     symlink_directory = path.chars().rev().collect::<String>();
                 }
 
-                let resolved_link = FileExt::resolve_symlink_path(&symlink_directory, &points_to).unwrap();
-                path = resolved_link;
+                let boxed_resolved_link = FileExt::resolve_symlink_path(&symlink_directory, &points_to);
+                if boxed_resolved_link.is_err() {
+                    let error = Error {
+                        status_code_reason_phrase: STATUS_CODE_REASON_PHRASE.n500_internal_server_error,
+                        message: boxed_resolved_link.err().unwrap()
+                    };
+                    eprintln!("{}", &error.message);
+                    return Err(error);
+                }
+                path = boxed_resolved_link.unwrap();
             }
 
             let boxed_content_range_list = Range::parse_content_range(&path, md.len(), &range.value);
